@@ -26,6 +26,8 @@ DECIDED_R6 = ('Round 6: item store on an object of a package class is a call of 
 DECIDED = DECIDED + ' ' + DECIDED_R6
 DECIDED_R7 = ('Round 7: decode(<computed codec>) raises LookupError; generator escapes occur at the consumption site; the upload window positions the shared source before every read.')
 DECIDED = DECIDED + ' ' + DECIDED_R7
+DECIDED_R8 = ('Round 8: an empty CONTENT_LENGTH does not reach int(); merged-configuration clause shared with C05.e.')
+DECIDED = DECIDED + ' ' + DECIDED_R8
 NOT_DECIDED = ('regex matching time; completeness of the may-raise catalogue (a stated assumption: ' +
                '; '.join(f'{a} -> {b}' for a, b in CATALOGUE_DOC) + '); a non-numeric CONTENT_LENGTH (server-validated '
                'framing metadata, not body bytes).')
